@@ -439,6 +439,8 @@ class PipeWorld:
         boot._state['skew'] = 0.0
         self.spec = aegen.generate(ch, max_pkgs=cfg['max_pkgs'], max_total=cfg['max_total'],
                                    feedback=cfg.get('feedback', True), self_refs=cfg.get('self_refs', False))
+        # the engine's base package may be dotted (DAWGIE_AE_BASE_PACKAGE=proj.ae): names are cut relative to it
+        self.spec.base = ['vae', 'vae', 'vproj.ae'][ch.choose('gen.base_package', 3)]
         self.ref = aegen.Ref(self.spec)
         self.G = Truth(self, self.ref)
         self.eng = aegen.Engine(self.spec)
@@ -556,6 +558,19 @@ class PipeWorld:
             w.chron.append((entry['task'], entry['target'], entry['runid'], entry['status']))
             return r
 
+        def dispatch():
+            # C11: the tick that takes the pipeline out of the active state (idle + new data: archive) still tells the
+            # waiting workers to leave
+            import dawgie.context as ctx
+
+            was = hasattr(ctx, 'fsm') and ctx.fsm.is_pipeline_active()
+            r = real['dispatch']()
+            if was and not ctx.fsm.is_pipeline_active():
+                w.probes['dispatch_left_active_state'] += 1
+                w.check_load_notified(rule='waiting_worker_not_dismissed_when_leaving_active', mark=False)
+            return r
+
+        farm.dispatch = dispatch
         farm._put = _put
         farm.Hand._res = staticmethod(_res)
         farm.Hand.do = do
@@ -735,8 +750,9 @@ class PipeWorld:
         if any(len(ref.parents[a]) >= 2 for a in algs):
             self.probes['graph_with_join'] += 1
 
-    def check_load_notified(self):
-        """C11: at (re)load every waiting worker was told to leave (abort + close)"""
+    def check_load_notified(self, rule='waiting_worker_not_dismissed_at_load', mark=True):
+        """C11: at (re)load - and when a dispatch tick takes the pipeline out of the active state - every waiting worker
+        was told to leave (abort + close)"""
         import dawgie.pl.message as message
 
         for info in self.hands.values():
@@ -745,9 +761,9 @@ class PipeWorld:
                 last = info.get('last_sent')
                 ok = last is not None and last.type == message.Type.response and last.success is False and (tr.disconnecting or tr.disconnected)
                 if not ok:
-                    self.violate('C11', 'waiting_worker_not_dismissed_at_load', 'load', f'a registered idle worker survived the (re)load without abort+close (last message {last})')
+                    self.violate('C11', rule, 'load' if mark else 'archive', f'a registered idle worker was not told to leave (abort + close) although the pipeline stopped being active (last message {last})')
                 info['dismissed'] = True
-                self.probes['worker_dismissed_at_load'] += 1
+                self.probes['worker_dismissed_at_load' if mark else 'worker_dismissed_when_leaving_active'] += 1
 
     def on_server_send(self, hand, b):
         """every message the farm writes to a worker connection (C11)"""
